@@ -595,28 +595,9 @@ func vC02NsecCase(tr *vC02Trace, g *vC02Gen, z *vC02Zone, fixed []vC02FixedProbe
 			how := z.existsHow(p.eff)
 			ndTrue := z.nodataTrue(p.eff, p.qtype)
 			p.note = fmt.Sprintf("[truth: exists=%q nodata=%v]", how, ndTrue)
-			// A verdict on an input of a known finding's class travels alone, tagged with the
-			// finding's key (whether or not it fails, judged or not), so the finding tolerates
-			// nothing but that verdict on that class of input.
-			neKey := ""
-			switch how {
-			case "ent":
-				neKey = "nsec-nxdomain-ent"
-			case "below-cut":
-				neKey = "nsec-nxdomain-below-cut"
-			case "wildcard-ent":
-				neKey = "nsec-nxdomain-wildcard-ent"
-			case "wildcard", "":
-				if ce, ok := z.closestEncloser(p.eff); ok && len(ce) == 0 && z.owner(p.eff) == nil {
-					neKey = "nsec-nxdomain-root-wildcard" // closest encloser is the root: wildcard step skipped
-				}
-			}
-			ndKey := ""
-			if nd := z.owner(p.eff); nd != nil && z.belowCut(p.eff) == nil && p.qtype != dns.TypeDS &&
-				vC02Has(nd.types, dns.TypeNS) && !vC02Has(nd.types, dns.TypeSOA) &&
-				!vC02Has(nd.types, p.qtype) && !vC02Has(nd.types, dns.TypeCNAME) {
-				ndKey = "nsec-nodata-at-delegation"
-			}
+			// (findings nsec-nxdomain-ent / -below-cut / -wildcard-ent / -root-wildcard and
+			// nsec-nodata-at-delegation were fixed by 130ba3b: no input class is tolerated any more)
+			neKey, ndKey := "", ""
 			if exactJudged && p.ne == 0 && how != "" {
 				p.fails = append(p.fails, vC02Failure{field: "ne", fkey: neKey,
 					msg: fmt.Sprintf("VerifyNameErrorNSEC accepted NXDOMAIN for %s which exists (%s)", p.effStr, how)})
